@@ -365,14 +365,27 @@ def trace(rep, meta, sfx):
             continue
         tid = tparams[0]
         ctx = hirq.Ctx(fn)
-        # rule-following recursive calls: self-calls whose node argument derives from `rules.get(..)`
+        # rule-following recursive calls: self-calls whose node argument derives from `rules.get(..)` - bound by an
+        # enclosing `if let Some(node) = rules.get(name)`, or by an earlier `let node = match rules.get(name) {..}` /
+        # `let Some(node) = rules.get(name) else {..}` / `rules.get(name)?`
+        def from_get(e):
+            return any(kind(x) == "MethodCall" and x["m"] == "get" and "HashMap" in x.get("rty", "") for x in walk(e))
+        get_bound = set()
+        for st in walk(fn["body"]):
+            if st.get("k") == "Let" and st.get("init") is not None and from_get(st["init"]):
+                for (bid, nm) in hirq.pat_bindings(st["pat"]):
+                    get_bound.add(bid)
+            if st.get("k") == "LetExpr" and from_get(st["init"]):
+                for (bid, nm) in hirq.pat_bindings(st["pat"]):
+                    get_bound.add(bid)
         follow = []
         for n in walk(fn["body"]):
             if kind(n) == "Call" and callee(n) == fnpath:
                 gs = ctx.guards(n)
-                via_get = any(g[0] == "if" and kind(peel(g[1])) == "LetExpr" and any(
-                    kind(x) == "MethodCall" and x["m"] == "get" and "HashMap" in x.get("rty", "") for x in walk(g[1]))
-                    for g in gs)
+                via_get = any(g[0] == "if" and kind(peel(g[1])) == "LetExpr" and from_get(g[1]) for g in gs)
+                if not via_get and n["args"]:
+                    root = hirq.place(n["args"][0])
+                    via_get = bool(root) and root[1] in get_bound
                 if via_get:
                     follow.append((n, gs))
         if not follow:
@@ -382,14 +395,22 @@ def trace(rep, meta, sfx):
             key = fnpath.split("::")[-1]
             r.instance(key + ":follow", where(n))
             visited = False
+
+            def is_contains(e):
+                e = peel(e)
+                return kind(e) == "MethodCall" and e["m"] == "contains" and hirq.local_id(e["recv"]) == tid
             for g in gs:
                 if g[0] == "if" and g[2] is True:
                     for cj in conj(g[1]):
                         cj = peel(cj)
-                        if kind(cj) == "Unary" and cj["op"] == "!":
-                            inner = peel(cj["e"])
-                            if kind(inner) == "MethodCall" and inner["m"] == "contains" and hirq.local_id(inner["recv"]) == tid:
-                                visited = True
+                        if kind(cj) == "Unary" and cj["op"] == "!" and is_contains(cj["e"]):
+                            visited = True
+                # the same test in its other spellings: the else branch of `if trace.contains(..)`, or code after
+                # `if trace.contains(..) { return .. }`
+                if g[0] == "if" and g[2] is False and is_contains(g[1]):
+                    visited = True
+                if g[0] == "not" and is_contains(g[1]):
+                    visited = True
             if not visited:
                 r.violation(key + ":visited", where(n),
                             "the recursion through a rule reference is not guarded by `!trace.contains(name)`: a "
@@ -516,7 +537,10 @@ def resolve(rep, meta, sfx):
             lits = [x.get("v") for x in walk(g[1]) if kind(x) == "Lit" and x.get("lk") == "str"]
             cmp_only = all(kind(x) != "MethodCall" or x["m"] in ("eq", "ne") for x in walk(g[1]))
             nonkw = [l for l in lits if l not in keywords]
-            uses_table = any(kind(x) == "MethodCall" and x["m"] in ("contains", "contains_key", "binary_search") for x in walk(g[1]))
+            tparams = set(p["id"] for p in fn["params"] if p.get("k") == "PBind" and "Vec<alloc::string::String>" in p.get("ty", ""))
+            # membership in the trace (names of user rules that were looked up and entered) is not a classification table
+            uses_table = any(kind(x) == "MethodCall" and x["m"] in ("contains", "contains_key", "binary_search")
+                             and hirq.local_id(x["recv"]) not in tparams for x in walk(g[1]))
             # `trace[0] == other` (left recursion found) compares two names, no literal: not an early *classification*
             if not lits and not uses_table:
                 continue
@@ -538,7 +562,7 @@ def wiring(rep, meta, f, sfx):
     if va is None:
         r.lost("validator::validate_ast")
         return
-    called = set(callee(n) for n in walk(va["body"]) if kind(n) == "Call")
+    called = hirq.called_paths(va["body"])
     for v in ("validate_repetition", "validate_choices", "validate_whitespace_comment", "validate_left_recursion"):
         p = "pest_meta::validator::" + v
         r.instance("validate_ast:" + v, where(va["body"]))
